@@ -6,3 +6,16 @@ type User struct{ N int }
 
 // Load of v1.
 func (u *User) Load(i int) int { return u.N + 1011 }
+
+// Account has an unexported value-receiver method; a same-named type with a same-named
+// method exists in the package that mocks it.
+type Account struct{ ID int }
+
+func (a Account) fee(i int) int { return a.ID + i }
+
+// Fee calls the unexported method.
+func (a Account) Fee(i int) int { return a.fee(i) }
+
+// FeeFunc hands out the unexported method (as a method expression) so that a harness in
+// another package can name its code.
+func FeeFunc() interface{} { return Account.fee }
